@@ -304,6 +304,12 @@ def main(ctx):
     cases.append({"free": {"n": 16, "ops": 40 if q else 300, "runs": 1 if q else 4, "procs": 0, "only": "(dest"}})
     cases.append({"free": {"n": 16, "ops": 30 if q else 200, "runs": 1 if q else 3, "procs": 2, "only": "(dest"}})
     cases.append({"free": {"n": 12, "ops": 50 if q else 400, "runs": 1 if q else 4, "procs": 0, "only": "(shared"}})
+    # strict marshal of long MarshalJSON output; json.Unmarshaler targets that yield while oj.JSON / oj.Write run; private data
+    # nested 600 deep through alt and the writers' fallbacks with a yielding Simplify
+    cases.append({"free": {"n": 16, "ops": 20 if q else 150, "runs": 1 if q else 3, "procs": 0, "only": "marshaler long,marshaler member"}})
+    cases.append({"free": {"n": 12, "ops": 50 if q else 300, "runs": 1 if q else 3, "procs": 0,
+                           "only": "unmarshaler,(raw),oj.JSON,oj.Write,oj.Marshal"}})
+    cases.append({"free": {"n": 8, "ops": 25 if q else 150, "runs": 1 if q else 3, "procs": 0, "only": "(deep"}})
     recs = judge(ctx, cases)
     for r in recs:
         ctx.add(r["api"], r["kind"], r["locus"], r["witness"], case=r["case"], detail=r.get("detail"))
@@ -317,7 +323,7 @@ def main(ctx):
                        "around 1024 / 4096 / 65536 bytes) and focused menus in fresh processes (nested recomposer types on first "
                        "use, shared filters with multi-valued operands, buffer-returning calls); every recorded run "
                        "judged by TLC. distinct_nontrivial = distinct program tuples replayed."
-                       % ("pool.Get/pool.Put gates (hooks present) and whole calls" if hooks else "whole calls (no hooks in the tree)", 155))
+                       % ("pool.Get/pool.Put gates (hooks present) and whole calls" if hooks else "whole calls (no hooks in the tree)", 173))
     ctx.sample(scheds[len(scheds) // 2])
     ctx.sample(cases[1])
     ctx.assumptions += [
